@@ -16,6 +16,7 @@ import (
 	"path"
 	"sort"
 	"sync"
+	"sync/atomic"
 	"time"
 
 	"github.com/pingcap/kvproto/pkg/pdpb"
@@ -356,62 +357,88 @@ func gatedPhase(r *ev.Run, e *etcdx.Etcd) {
 		leader0 int
 		switchT int // -1 none
 	}{{"no-switch", 0, -1}, {"switch-0-to-1", 0, 1}, {"switch-1-to-0", 1, 0}}
+	// fault dimension: the window txn of one instance fails during the race, either without being
+	// sent or after it was applied ("Commit returned an error" tells the caller nothing about which).
+	type gfault struct {
+		name string
+		mem  int
+		mode etcdx.FaultMode
+	}
+	faults := []gfault{{"none", -1, etcdx.NoFault}, {"m0-fail-before", 0, etcdx.FailBefore}, {"m1-fail-before", 1, etcdx.FailBefore},
+		{"m0-lost-ack", 0, etcdx.LostAck}, {"m1-lost-ack", 1, etcdx.LostAck}}
 	cnt := 0
 	for _, v := range variants {
-		ex := &sched.Explorer{}
-		for {
-			ch := ex.Next()
-			if ch == nil {
-				break
-			}
-			cnt++
-			w, err := newWorld(r, e, 3, fmt.Sprintf("g%d-%d", r.Shard, cnt))
-			if err != nil {
-				r.Inconclusive("world: %v", err)
-				return
-			}
-			w.setLeader(v.leader0)
-			// give the bound a non-zero start in half of the variants via a normal allocation
-			if cnt%2 == 0 {
-				w.alloc(v.leader0)
-				w.crash(v.leader0)
-			}
-			s := sched.New()
-			for _, c := range w.cl {
-				c.Gate, c.Done = s.Gate, s.Done
-			}
-			ws := []func(){func() { w.alloc(0) }, func() { w.alloc(1) }}
-			if v.switchT >= 0 {
-				ws = append(ws, func() {
-					w.cl[2].Put(context.Background(), path.Join(w.root, "leader"), member(v.switchT))
-				})
-			}
-			s.Run(ws, ch)
-			for _, c := range w.cl {
-				c.Gate, c.Done = nil, nil
-			}
-			ex.Advance(s)
-			if s.Err != nil {
-				r.Inconclusive("scheduler: %v", s.Err)
+		for _, gf := range faults {
+			ex := &sched.Explorer{}
+			for {
+				ch := ex.Next()
+				if ch == nil {
+					break
+				}
+				cnt++
+				w, err := newWorld(r, e, 3, fmt.Sprintf("g%d-%d", r.Shard, cnt))
+				if err != nil {
+					r.Inconclusive("world: %v", err)
+					return
+				}
+				w.setLeader(v.leader0)
+				// give the bound a non-zero start in half of the variants via a normal allocation
+				if cnt%2 == 0 {
+					w.alloc(v.leader0)
+					w.crash(v.leader0)
+				}
+				s := sched.New()
+				for _, c := range w.cl {
+					c.Gate, c.Done = s.Gate, s.Done
+				}
+				var injected int32
+				if gf.mem >= 0 {
+					gf := gf
+					w.cl[gf.mem].Decide = func(rpc *etcdx.RPC) etcdx.FaultMode {
+						if rpc.Method == "Txn" && rpc.Write && atomic.CompareAndSwapInt32(&injected, 0, 1) {
+							return gf.mode
+						}
+						return etcdx.NoFault
+					}
+					w.steps = append(w.steps, "fault="+gf.name)
+				}
+				ws := []func(){func() { w.alloc(0) }, func() { w.alloc(1) }}
+				if v.switchT >= 0 {
+					ws = append(ws, func() {
+						w.cl[2].Put(context.Background(), path.Join(w.root, "leader"), member(v.switchT))
+					})
+				}
+				s.Run(ws, ch)
+				for _, c := range w.cl {
+					c.Gate, c.Done = nil, nil
+					c.Decide = nil
+				}
+				if atomic.LoadInt32(&injected) == 1 {
+					r.Count("gated_faults_injected", 1)
+				}
+				ex.Advance(s)
+				if s.Err != nil {
+					r.Inconclusive("scheduler: %v", s.Err)
+					w.close()
+					return
+				}
+				// after the race, both instances keep allocating: duplicates would show up here
+				for i := 0; i < 3; i++ {
+					w.alloc(0)
+					w.alloc(1)
+				}
+				w.steps = append(w.steps, "schedule="+s.TraceKey())
+				r.Eval(1)
+				r.Count("gated_schedules", 1)
+				r.Distinct("gated|" + v.name + "|" + gf.name + "|" + fmt.Sprint(cnt%2) + "|" + s.TraceKey())
+				if cnt == 5 {
+					r.Sample(map[string]interface{}{"mode": "gated", "variant": v.name, "schedule": s.Trace, "events": w.evs})
+				}
+				w.judge("gated", map[uint64]allocEv{})
 				w.close()
-				return
-			}
-			// after the race, both instances keep allocating: duplicates would show up here
-			for i := 0; i < 3; i++ {
-				w.alloc(0)
-				w.alloc(1)
-			}
-			w.steps = append(w.steps, "schedule="+s.TraceKey())
-			r.Eval(1)
-			r.Count("gated_schedules", 1)
-			r.Distinct("gated|" + v.name + "|" + fmt.Sprint(cnt%2) + "|" + s.TraceKey())
-			if cnt == 5 {
-				r.Sample(map[string]interface{}{"mode": "gated", "variant": v.name, "schedule": s.Trace, "events": w.evs})
-			}
-			w.judge("gated", map[uint64]allocEv{})
-			w.close()
-			if r.Violations() > 0 {
-				return
+				if r.Violations() > 0 {
+					return
+				}
 			}
 		}
 	}
@@ -557,7 +584,7 @@ func levelB(r *ev.Run, rng *rand.Rand) {
 
 func main() {
 	r := ev.New("C04", "exploration")
-	r.Rule("component level: 3-4 id allocator instances on one etcd, random histories over {alloc bursts around the 1000-id window, leader record switch, instance crash (+/- Rebase), Rebase, fail-before/lost-ack on the window txn or read}; distinct = history shape string; gated: every release order of two instances' Range->Txn pairs and a leader switch Put (distinct = variant x schedule); level B: AllocID/AskBatchSplit bursts on a real server with leader resignations")
+	r.Rule("component level: 3-4 id allocator instances on one etcd, random histories over {alloc bursts around the 1000-id window, leader record switch, instance crash (+/- Rebase), Rebase, fail-before/lost-ack on the window txn or read}; distinct = history shape string; gated: every release order of two instances' Range->Txn pairs and a leader switch Put, crossed with {no fault, fail-before, lost-ack} on either instance's window txn (distinct = variant x fault x schedule); level B: AllocID/AskBatchSplit bursts on a real server with leader resignations")
 	r.Assume("leader record switched by writing the leader key through an un-instrumented observer client (component level) and by Member.ResetLeader (real server)")
 	r.Assume("64-bit wrap-around of alloc_id is not driven")
 	rng := rand.New(rand.NewSource(r.ShardSeed()))
